@@ -38,6 +38,9 @@ def leaf_defs():
         Record("G2", [("u", Union(("t", TP("T")), ("u", TP("U")))), ("m", Map(P("string"), TP("T")))], tparams=("T", "U")),
         Alias("GU", Union(TP("T"), P("string")), tparams=("T",)),
         Alias("GN", Union(None, TP("T"), P("float32")), tparams=("T",)),
+        # a union whose JSON datatypes depend on a type argument that is not itself a case: a map keyed by the parameter is an object
+        # for string keys and an array of pairs otherwise
+        Record("GK", [("u", Union(("m", Map(TP("K"), P("int32"))), ("r", N("RS")))), ("w", Union(("m", Map(TP("K"), P("bool"))), ("v", Vec(P("int32")))))], tparams=("K",)),
     ]
 
 
@@ -252,7 +255,7 @@ def quarantine_class(t):
             return False
         k = x[0]
         if k == "named":
-            return x[1] in ("G2", "GU", "GN") or any(has_generic_union(a) for a in x[2])
+            return x[1] in ("G2", "GU", "GN", "GK") or any(has_generic_union(a) for a in x[2])
         if k in ("opt", "vec", "stream", "arr"):
             return has_generic_union(x[1])
         if k == "map":
